@@ -31,3 +31,21 @@ func TestDeflateInflateRoundTrip(t *testing.T) {
 		}
 	})
 }
+
+func TestCraftBackref(t *testing.T) {
+	hist := make([]byte, 32768)
+	for i := range hist {
+		hist[i] = byte(i*7 + i>>8)
+	}
+	for _, d := range []int{258, 259, 300, 1000, 4096, 20000, 32768} {
+		in := &Inflater{Takeover: true, hist: hist}
+		got, err := in.Message(CraftBackref(d), 1<<20)
+		if err != nil || len(got) != 258 || !bytes.Equal(got, hist[len(hist)-d:len(hist)-d+258]) {
+			t.Fatalf("distance %d: %d bytes, err %v", d, len(got), err)
+		}
+		empty := NewInflater(true)
+		if got, err := empty.Message(CraftBackref(d), 1<<20); err == nil {
+			t.Fatalf("distance %d with an empty window inflated to %d bytes without error", d, len(got))
+		}
+	}
+}
